@@ -14,9 +14,10 @@
                                 short): read_fru_data returns exactly the stored slice.
   * `read_full_exact`         — read_fru_data_full returns the whole inventory area.
   * `requests_name_fru`       — for EVERY operation (range read, full read, write, header, the three
-                                info areas, multirecord area, whole inventory — intended variant),
-                                EVERY transport (any peer behaviour), every request on the wire
-                                carries the caller's FRU id.
+                                info areas, multirecord area, whole inventory — intended variant;
+                                `_read_fru_area` with and without the area-length check of
+                                fixes/C15-2.diff), EVERY transport (any peer behaviour), every request
+                                on the wire carries the caller's FRU id.
   * `write_exact`             — write_fru_data stores exactly the given bytes contiguously from the
                                 offset and touches no other FRU.
   * `write_count_mismatch_raises` — for EVERY peer: write_fru_data returns normally only if every
@@ -63,30 +64,31 @@ inductive Op where
   | multirecord
   | inventory
 
-/-- The exchanges an operation performs for FRU `id` (intended variant of the multirecord read). -/
-def Op.trace {σ} (send : Send σ) (dev : σ) (id : Nat) : Op → List Xchg
+/-- The exchanges an operation performs for FRU `id` (intended variant of the multirecord read;
+`lenChk`: `_read_fru_area` rejects an area length byte 0, fixes/C15-2.diff). -/
+def Op.trace {σ} (send : Send σ) (lenChk : Bool) (dev : σ) (id : Nat) : Op → List Xchg
   | .read o c => (readFruData fruCfg send ⟨dev, []⟩ o c id).w.trace
   | .full => (readFruDataFull fruCfg send ⟨dev, []⟩ id).w.trace
   | .write data off => (writeFruData fruCfg send ⟨dev, []⟩ data off id).w.trace
   | .header => (getHeader fruCfg send ⟨dev, []⟩ id).w.trace
-  | .area a => (getInfoArea fruCfg send ⟨dev, []⟩ a id).w.trace
+  | .area a => (getInfoArea fruCfg send lenChk ⟨dev, []⟩ a id).w.trace
   | .multirecord => (getMultirecord fruCfg send false ⟨dev, []⟩ id).w.trace
-  | .inventory => (getInventory fruCfg send false ⟨dev, []⟩ id).w.trace
+  | .inventory => (getInventory fruCfg send false lenChk ⟨dev, []⟩ id).w.trace
 
 /-- Every request of every operation — including each part of a full inventory read — carries
 the FRU id the caller named, whatever the peer answers. -/
-theorem requests_name_fru {σ} (send : Send σ) (dev : σ) (id : Nat) (hid : id < 256) (o : Op) :
-    ∀ x ∈ o.trace send dev id, x.req.payload.head? = some id := by
+theorem requests_name_fru {σ} (send : Send σ) (lenChk : Bool) (dev : σ) (id : Nat) (hid : id < 256) (o : Op) :
+    ∀ x ∈ o.trace send lenChk dev id, x.req.payload.head? = some id := by
   have h0 : Named id (⟨dev, []⟩ : World σ).trace := by intro x hx; cases hx
-  have key : Named id (o.trace send dev id) := by
+  have key : Named id (o.trace send lenChk dev id) := by
     cases o with
     | read off c => exact readFruData_named fruCfg send id _ off c h0
     | full => exact readFruData_named fruCfg send id _ none 0 h0
     | write data off => exact writeFruData_named fruCfg send id _ data off h0
     | header => exact getHeader_named fruCfg send id _ h0
-    | area a => exact getInfoArea_named fruCfg send id _ a h0
+    | area a => exact getInfoArea_named fruCfg send lenChk id _ a h0
     | multirecord => exact getMultirecord_named fruCfg send id _ h0
-    | inventory => exact getInventory_named fruCfg send id _ h0
+    | inventory => exact getInventory_named fruCfg send lenChk id _ h0
   intro x hx
   have := key x hx
   rwa [Nat.mod_eq_of_lt hid] at this
@@ -229,6 +231,18 @@ example : ((writeFruData fruCfg respond ⟨⟨[(3, List.replicate 40 0)], 32, 0x
 /-- a device that stores at most 8 bytes per write: the library raises -/
 example : (writeFruData fruCfg respond ⟨⟨[(3, List.replicate 40 0)], 32, 0xCA, false, 8⟩, []⟩
     (List.replicate 20 9) 5 3).out = .pyError "Exception" := by decide
+
+/-- FRU 5: common header announcing a chassis area at offset 8 whose length byte is 00h.  Without the
+check of fixes/C15-2.diff `_read_fru_area` reads 0 bytes (header read + 5-byte read, then no request) and
+hands `b''` to the parser; with it the 5-byte read is followed by `DecodingError` – the same two requests,
+both naming FRU 5. -/
+example :
+    let dev : FruDev := ⟨[(0, []), (5, [1, 0, 1, 0, 0, 0, 0, 0xFE, 0x01, 0x00, 0x17, 0xC0, 0xC0, 0xC1, 0x00, 0xA7])], 32, 0xCA, false, 16⟩
+    (getInfoArea fruCfg respond false ⟨dev, []⟩ .chassis 5).out = .ok [] ∧
+    (getInfoArea fruCfg respond true ⟨dev, []⟩ .chassis 5).out = .decodingError ∧
+    (getInfoArea fruCfg respond true ⟨dev, []⟩ .chassis 5).w.trace.length = 2 ∧
+    namedB 5 (getInfoArea fruCfg respond true ⟨dev, []⟩ .chassis 5).w.trace = true ∧
+    (getInventory fruCfg respond false true ⟨dev, []⟩ 5).out = .decodingError := by decide
 
 /-- the intended multirecord read of FRU 1 names FRU 1 throughout (3 exchanges) -/
 example : namedB 1 (getMultirecord fruCfg respond false ⟨demoDev, []⟩ 1).w.trace = true ∧
